@@ -152,9 +152,12 @@ def run(ctx):
     ctx.rule('FRAME-ALIGN', 'shared with C05: a block worker that advances by `count / channels` is only handed whole frames (a staging chunk that is not a multiple of the channel count loses the '
              'partial frame at its end: written data is not what is read back)', floor=20)
     ctx.rule('EOD-TAIL', 'shared with C05: buffered samples of the last decoded block are delivered before the end-of-data exit is taken', floor=6)
-    from engine.blockrules import frame_align, eod_tail
+    ctx.rule('BLOCK-AVAIL', 'a block reader that counts blocks zero-fills exactly the blocks its consumer treats as past the end of the data: both tests have the same normal form '
+             '(c + d) * samplesperblock >= frames in the pre-increment block count c (a reader that tests (c + 1) * S > F discards the final partial block)', floor=4)
+    from engine.blockrules import frame_align, eod_tail, block_avail
     frame_align(ctx, prog)
     eod_tail(ctx, prog)
+    block_avail(ctx, prog)
 
     # ------------------------------------------------------------------ LANE-WRAP
     ctx.rule('LANE-WRAP', 'each pcm_read_<code>2<T> / pcm_write_<T>2<code> calls the kernel <code>2<T>_array / <T>2<code>[_clip]_array (or, for the same-width host paths, transfers straight into the caller '
